@@ -953,6 +953,14 @@ def check_encode(ctx: Ctx, rows: set[str] | None = None) -> None:
             const_ticks = [p for k, p, _ in lead if k == "const" and "`" in str(p.value)]
             dyn = [sl for k, _, sl in lead if k == "expr" and sl is not None and sl.depends_on_attr(f"{el}.children")]
             ok = text_seen and not const_ticks and bool(dyn)
+            if not ok and text_seen and const_ticks:
+                # a fixed one-backtick delimiter on a path where the text is known to hold no backtick at all
+                for b_, lab_ in must_edges(flow.cfg, flow.cfg.entry, r) or set():
+                    t_ = b_.ast if b_.kind == "test" else None
+                    if isinstance(t_, ast.Compare) and len(t_.ops) == 1 and isinstance(t_.left, ast.Constant) and t_.left.value == "`" \
+                            and ((isinstance(t_.ops[0], ast.NotIn) and lab_ == "T") or (isinstance(t_.ops[0], ast.In) and lab_ == "F")) \
+                            and any(o[0] == "attr" and o[2] == "children" for o in origins(prog, m, t_.comparators[0], b_)):
+                        ok = True
             ctx.ob("R-ENCODE-codespan", f"{m.qual} :: {norm(v)[:50]}", ok,
                    "a code span's backtick delimiter must be computed from the backtick runs inside its text; a constant "
                    "delimiter cannot enclose arbitrary content (``a`b`` -> `a`b`)", where(m, r))
@@ -1233,6 +1241,15 @@ def check_fence_bound(ctx: Ctx) -> None:
                "the measured length must be that of the run matched in this iteration", where(scan_f, an))
     for r in ([] if inline_scan else sflow.cfg.returns()):
         k = _lb(sflow, r.ast.value, r, name)
+        if k is None and isinstance(r.ast.value, ast.Constant) and isinstance(r.ast.value.value, int) and not isinstance(r.ast.value.value, bool):
+            # an early exit where the content holds no fence character at all: the longest run is 0 there
+            for b_, lab_ in must_edges(sflow.cfg, sflow.cfg.entry, r) or set():
+                t_ = b_.ast if b_.kind == "test" else None
+                if isinstance(t_, ast.Compare) and len(t_.ops) == 1 and isinstance(t_.left, ast.Name) and isinstance(t_.comparators[0], ast.Name) \
+                        and t_.left.id in scan_f.params and t_.comparators[0].id in scan_f.params \
+                        and all(d.kind == "param" for x_ in (t_.left, t_.comparators[0]) for d in sflow.reaching(b_, x_.id)) \
+                        and ((isinstance(t_.ops[0], ast.NotIn) and lab_ == "T") or (isinstance(t_.ops[0], ast.In) and lab_ == "F")):
+                    k = r.ast.value.value
         ctx.ob("R-BOUND", f"{scan_f.qual} :: return > longest run", k is not None and k >= 1,
                f"the returned fence length must be at least (longest run + 1); lower bound found: "
                f"{'longest run %+d' % k if k is not None else 'none'} for `{norm(r.ast.value)}`", where(scan_f, r))
